@@ -11,6 +11,7 @@ import LuaHelper.Driver.OutlineOps
 import LuaHelper.Driver.ModOps
 import LuaHelper.Driver.AnnotOps
 import LuaHelper.Driver.ClosureOps
+import LuaHelper.Driver.CommentOps
 import LuaHelper.Driver.DiagOps
 import LuaHelper.Driver.MergeOps
 open LuaHelper
@@ -56,6 +57,9 @@ def dispatch (cmd : String) (args : List String) : String :=
   | some r => r
   | none =>
   match MergeOps.handle cmd args with
+  | some r => r
+  | none =>
+  match CommentOps.handle cmd args with
   | some r => r
   | none => "bad-op"
 
